@@ -179,14 +179,17 @@ def candidates(toks):
             yield toks[:i] + ["0"] + toks[i + 1:]
 
 
-def reduce(src, batch_test, max_rounds=400, max_candidates=1500):
+def reduce(src, batch_test, max_rounds=400, max_candidates=1500, budget_s=180, chunk=192):
+    """returns the smallest interesting source found within the time budget"""
+    import time
+    t_end = time.time() + budget_s
     toks = tokenize(src)
     cur = join(toks)
     if not batch_test([cur])[0]:
         # tokenisation changed the behaviour: reduce nothing
         return src
     rounds = 0
-    while rounds < max_rounds:
+    while rounds < max_rounds and time.time() < t_end:
         rounds += 1
         seen = set()
         cands = []
@@ -201,21 +204,17 @@ def reduce(src, batch_test, max_rounds=400, max_candidates=1500):
         if not cands:
             break
         cands.sort(key=lambda x: x[0])
-        n = len(toks)
-        # staged: big cuts first, fine cuts only when no big cut works
-        stages = [[c for c in cands if c[0] <= n * 0.7], [c for c in cands if n * 0.7 < c[0] <= n * 0.93],
-                  [c for c in cands if c[0] > n * 0.93]]
+        cands = cands[:max_candidates * 3]
         best = None
-        for st in stages:
-            st = st[:max_candidates]
-            if not st:
-                continue
-            res = batch_test([c[1] for c in st])
-            for ok, c in zip(res, st):
+        # smallest candidates first, in chunks: stop at the first chunk that contains a success
+        for k in range(0, len(cands), chunk):
+            part = cands[k:k + chunk]
+            res = batch_test([c[1] for c in part])
+            for ok, c in zip(res, part):
                 if ok:
                     best = c
                     break
-            if best is not None:
+            if best is not None or time.time() > t_end:
                 break
         if best is None:
             break
